@@ -9,7 +9,7 @@ TEXT = {
  "C01": ("exploration", "rapid-generated option pairs (built around an intended agreement) x fault masks x payloads; every negotiated output compared on both sides and on the wire whenever both succeed",
          "both endpoints are this library; agreement, not RFC conformance (C10); schedules = delivery order on the virtual network, goroutine interleavings not controlled",
          "property-based testing (rapid) over configuration pairs and fault masks, virtual clock (testing/synctest), oracle = field-by-field agreement + wire inspection"),
- "C02": ("fault_enumeration", "exhaustive drop masks over the first 4 (thorough 6) datagrams of each direction and all-kind masks over the first 2 (thorough 3) for 14 handshake variants, sampled masks beyond; completion + virtual-time bound + data exchange",
+ "C02": ("fault_enumeration", "exhaustive drop masks over the first 4 (thorough 6) datagrams of each direction, all-kind masks over the first 2 (thorough 3), every single loss under 5 asymmetric (client, server) flight intervals x backoff on/off, for 14 handshake variants; sampled masks (N<=12, random intervals, dual-stack variants) beyond; completion + virtual-time bound + data exchange",
          "faults never modify bytes; liveness decided up to a 30 min virtual deadline; failures are minimised to a content-targeted fault plan for root-cause signatures",
          "exhaustive fault-mask enumeration + rapid sampling on a virtual network and clock; oracle = both succeed within the retransmission-schedule bound"),
  "C03": ("exploration", "policy (6 client-auth modes, roots, server name, custom verifiers, PSK) x rogue deviation (no/foreign/expired/wrong-name certificate, signature by another key or over other bytes, missing CertificateVerify, wrong PSK, dropped messages) enumerated and sampled for both versions; the rogue is this library steered through the flight rewrite hook",
@@ -33,13 +33,13 @@ TEXT = {
  "C05": ("exploration", "every suite x CID layout x direction: held genuine records, generated forgeries (all header/edge bit flips, field neighbour values, truncations, extensions, cross-session splices, recombinations) must vanish without effect and the genuine record must still be delivered once",
          "forger holds no keys; soundness of the AEAD/HMAC primitives assumed",
          "property-based testing (rapid) + exhaustive mutation grid per suite; oracle = vanish without effect (no read, no emission, no error, connection open) then genuine record accepted"),
- "C06": ("exploration", "arrival sequences with repetitions over captured records, all short sequences enumerated for windows 1..3, sampled long ones aimed at the window edge for windows up to 1000",
+ "C06": ("exploration", "arrival sequences with repetitions over captured records, all short sequences enumerated for windows 1..3, sampled long ones aimed at the window edge for windows up to 1000; for DTLS 1.3 up to 8 key updates between rounds with late duplicates of datagrams read under earlier epochs",
          "records of a round carry consecutive sequence numbers (written at quiescence); model used one-sidedly as the statement is worded",
          "exhaustive enumeration of short arrival sequences + rapid sampling; oracle = sliding-window reference model"),
  "C09": ("exploration", "sessions with concurrent writers, forced handshake retransmissions, alerts, 1.3 key updates, export/import seams and counters rewritten to 2^48-j; sequence numbers read off the wire (1.3 via independent decoder) must strictly increase per epoch",
          "emission order = order of WriteTo calls on the injected PacketConn; goroutine interleavings are those the scheduler produces",
          "property-based testing (rapid) of operation schedules; oracle = strict monotonicity invariant over the tapped history"),
- "C12": ("exploration", "generated partitions/permutations of handshake fragments against a byte-level reference reassembler; small space (2 messages, len<=3/4) enumerated exhaustively",
+ "C12": ("exploration", "generated partitions/permutations of handshake fragments against a byte-level reference reassembler; small space (2 messages, len<=3/4) enumerated exhaustively; long sessions (150..420 multi-fragment messages through one buffer)",
          "trusted: reference reassembler in harness/c12; fragments are partitions (no overlapping re-partitions)",
          "property-based testing (rapid) + exhaustive small-space enumeration against a reference model"),
  "C13": ("exploration", "raw client built by byte surgery on a genuine ClientHello: sequences of second hellos (cookie variant x body alteration x repetition x virtual-time gap x fragmentation), both versions; grid of cookie x alteration enumerated",
@@ -59,7 +59,7 @@ TEXT = {
          "property-based testing (rapid) + enumerated placement grid in a synctest bubble, race-detector build for the concurrent-API scenarios; oracle = lifecycle invariants over recorded calls and tapped alerts"),
  "C18": ("exploration", "~70 codecs: seed encodings harvested from genuine 1.2/1.3 traffic via the independent decoder, mutated (every truncation and single-byte change swept, extensions, random); rapid.Make value round trips; datagram partition by the three unpackers",
          "equality structural with nil/empty slices identified; values restricted to the wire-representable domain by per-codec predicates; decoders that drop unknown enum members are judged on canonical re-encoding only",
-         "property-based testing (rapid) + exhaustive mutation sweep; oracles = round trip, canonical fixed point, declared-length rules, exact partition"),
+         "property-based testing (rapid, constructive value generators) + exhaustive mutation sweep + native coverage-guided fuzzing of the decoders and datagram splitters in the thorough tier; oracles = round trip, canonical fixed point, declared-length rules, exact partition"),
  "C19": ("exploration", "DTLS 1.2 sessions over 13 suites x CID/SRTP/ALPN/EMS/PSK, traffic prefix up to 50 records each way, export on client/server/both, optional second export; corruption of the serialised bytes (bit, every truncation, field-aware edits, random)",
          "export points are quiescent points; corruption judged 'key material intact' by re-decoding through a gob mirror",
          "property-based testing (rapid) + enumerated corruption grid; oracle = parameters/exporter unchanged, data both ways exactly once, sequence numbers monotone across the seam; corrupted state rejected or unable to authenticate, never a panic"),
